@@ -51,6 +51,8 @@ type Contract struct {
 	Params   []string // for iface/extern/callback: optional explicit parameter names
 	Refines  []string // interface method contracts this function must satisfy
 	GhostSets []GhostSet // ghost assignments performed by the function (ghost code)
+	StepInvs []Clause // asserted (obligation, then fact) after every call of the function, once its names are bound
+	MayPanicCalls []string // callees whose calls in this function may panic (user values behind a general interface)
 	GhostAts []GhostAt
 	NoLock   []Clause   // locks that must not be held at any blocking channel operation of the function
 	File     string
@@ -150,7 +152,7 @@ var clauseKeywords = map[string]bool{
 	"props": true, "arith": true, "flags": true, "requires": true, "ensures": true, "modifies": true,
 	"loop": true, "track": true, "panics": true, "statement": true, "refines": true, "ghost-set": true, "params": true, "assert": true, "lemma": true,
 	"guarded": true, "onceinit": true, "nolock": true,
-	"theory": true, "sort": true, "const": true, "fun": true, "smt": true, "macro": true, "ghost-at": true, "ghost-set-post": true, "trusted-axiom": true, "typeinv": true, "assumes": true,
+	"theory": true, "sort": true, "const": true, "fun": true, "smt": true, "macro": true, "ghost-at": true, "ghost-set-post": true, "trusted-axiom": true, "typeinv": true, "assumes": true, "maypanic-call": true, "stepinv": true,
 }
 
 func parseContracts(srcs []contractSource) (*Contracts, error) {
@@ -433,6 +435,14 @@ func parseContracts(srcs []contractSource) (*Contracts, error) {
 						return nil, err
 					}
 					cur.GhostAts = append(cur.GhostAts, GhostAt{Callee: fs[3], Ordinal: n, Before: fs[4] == "before", Name: strings.TrimSpace(body[:lb]), Idx: ie, Val: c})
+				case "stepinv":
+					c, err := mkClause(rest)
+					if err != nil {
+						return nil, err
+					}
+					cur.StepInvs = append(cur.StepInvs, c)
+				case "maypanic-call":
+					cur.MayPanicCalls = append(cur.MayPanicCalls, strings.Fields(rest)...)
 				case "nolock":
 					c, err := mkClause(rest)
 					if err != nil {
